@@ -16,7 +16,9 @@ TRUSTED = ["hand models lean/AwsVerif/Model/Lht.lean (ordered association list) 
 ASSUMPTIONS = ["max_items >= 1 (AWS_ASSERT(max_items) in aws_cache_new_*)",
                "hash_fn / equals_fn are consistent and depend on the key's identity only",
                "aws_lru_cache_use_lru_element / get_mru_element are called on LRU caches only"]
-RULE = ("op histories over one table/cache: kind lht|fifo|lifo|lru, capacity 1..5, 2..8 key identities x 2 pointers "
+RULE = ("op histories over one table/cache: kind lht|fifo|lifo|lru, capacity 1..5, 2..8 key identities x 2 pointers; 15% of the "
+        "cases with C-string / byte-cursor / aws_string keys (lengths 11-13, 23-25, 35-37, all four alignments) through "
+        "aws_hash_c_string / aws_hash_byte_cursor_ptr / aws_hash_string and their equality callbacks "
         "(+ the NULL key in a quarter of the cases, NULL values in a quarter), "
         "with/without key and value destructors, 4 hash modes (spread, constant, two buckets, zero); non-trivial = at least "
         "3 puts and (an overwrite, a removal or an eviction); plus all histories of a fixed length over 3 identities")
@@ -233,6 +235,11 @@ def gen_case(rng, maxops):
     kd = 0 if rng.random() < 0.12 else 1
     vd = 0 if rng.random() < 0.12 else 1
     hm = rng.choice([0, 0, 1, 2, 3])
+    if rng.random() < 0.15:
+        # keys are C strings / byte cursors / aws_strings hashed and compared by the library's own callbacks; identity i is a
+        # text of length 11,12,13,23,24,25,35,36,37 (i mod 9), pointer number = a separate copy at another byte alignment
+        hm = rng.choice([4, 4, 5, 5, 6])
+        nid = rng.randint(3, 17)
     ops = [f"init {kind} {cap} {kd} {vd} {hm}"]
     ref = Ref(kind, cap, bool(kd), bool(vd))
     val = [10]
@@ -363,6 +370,9 @@ def gen_cases(rng, tier):
             cases += exhaustive_cases(kind, 1, 3, nulls=True, kd=rng.choice([0, 1]))
         cases += exhaustive_cases("lht", 2, 4)
         cases += exhaustive_cases("lht", 2, 3, nulls=True)
+        for kind in KINDS:          # library string hashes: identities 0,1,2 = texts of 11,12,13 bytes, all alignments
+            cases += exhaustive_cases(kind, 2, 3, hm=4)
+            cases += exhaustive_cases(kind, 3, 3, hm=5)
     else:
         for kind in ("fifo", "lifo", "lru"):
             cases += exhaustive_cases(kind, 2, 6, hm=rng.choice([0, 1]))
@@ -373,6 +383,10 @@ def gen_cases(rng, tier):
             cases += exhaustive_cases(kind, 3, 4, nulls=True, vd=rng.choice([0, 1]))
         cases += exhaustive_cases("lht", 2, 5)
         cases += exhaustive_cases("lht", 2, 4, nulls=True)
+        for kind in KINDS:
+            cases += exhaustive_cases(kind, 2, 4, hm=4)
+            cases += exhaustive_cases(kind, 3, 4, hm=5)
+            cases += exhaustive_cases(kind, 2, 3, hm=6)
     return cases
 
 
@@ -395,6 +409,9 @@ def distribution(cases, c_out):
         if "kind" in t:
             d["kinds"][t["kind"]] = d["kinds"].get(t["kind"], 0) + 1
             d["caps"][str(t["cap"])] = d["caps"].get(str(t["cap"]), 0) + 1
+        if c.ops and c.ops[0].startswith("init ") and len(c.ops[0].split()) == 6:
+            hm = c.ops[0].split()[5]
+            d.setdefault("hashmodes", {})[hm] = d.setdefault("hashmodes", {}).get(hm, 0) + 1
         if t.get("exhaustive"):
             d["exhaustive_cases"] += 1
         d["evictions"] += t.get("evictions", 0)
